@@ -34,7 +34,9 @@ def docs_grammar(rnd, n):
         inner = ''.join(part(depth + 1) for _ in range(rnd.randrange(3))) if depth < 2 else 't'
         if kind == 1:
             return '<%s%s%s>%s' % (nm, attrs, tail, inner)           # unclosed
-        return '<%s%s%s>%s</%s%s>' % (nm, attrs, tail, inner, nm, rnd.choice(['', ' ', '\n']))
+        # (a differently-cased end tag does not close the element: ParseError or tag soup)
+        close = nm if rnd.randrange(6) else nm.swapcase()
+        return '<%s%s%s>%s</%s%s>' % (nm, attrs, tail, inner, close, rnd.choice(['', ' ', '\n']))
     def part(depth):
         k = rnd.randrange(8)
         if k == 0:
@@ -63,7 +65,7 @@ def main():
     from chameleon import PageTemplate
     from chameleon.exc import TemplateError
     from chameleon.tokenize import iter_xml
-    alphabet = '<>/="\' a1:-!'
+    alphabet = '<>/="\' aA1:-!'
     rnd = random.Random(seed)
     cases = distinct = 0
     seen = set()
